@@ -83,6 +83,14 @@ fn gen(rng: &mut Rng, tier: Tier) -> Vec<Case> {
         if qs.is_empty() { continue; }
         out.push(Case::new("boundary", enc(&C { h, qs })));
     }
+    if tier == Tier::Thorough {
+        // exhaustive small scope: all sequences of <= 2 non-empty intervals over 0..=3 in several histories,
+        // every ascending-start sequence of <= 3 queries over 0..=4 through one cursor
+        let qs1 = all_queries(2);
+        let mut seqs: Vec<Vec<(u64, u64)>> = vec![];
+        for a in &qs1 { seqs.push(vec![*a]); for b in &qs1 { if b.0 >= a.0 { seqs.push(vec![*a, *b]); for c in &qs1 { if c.0 >= b.0 { seqs.push(vec![*a, *b, *c]); } } } } }
+        for h in exhaustive_hists(2, 3, false, true) { for q in &seqs { out.push(Case::new("exhaustive", enc(&C { h: h.clone(), qs: q.clone() }))); } }
+    }
     for _ in 0..nr {
         let n = rng.range(2, 120) as usize;
         let base = match rng.below(4) { 0 => u64::MAX - 100_000, 1 => rng.below(1 << 45), _ => 0 };
